@@ -887,6 +887,9 @@ func (in *Interp) globalPtr(st *State, g *ssa.Global) Value {
 
 // zeroIsFine: synchronisation primitives and plain counters start at their zero value.
 func zeroIsFine(t types.Type) bool {
+	if s, ok := t.Underlying().(*types.Struct); ok && s.NumFields() == 0 {
+		return true // a type with a single value (sentinels such as internal/poll.errNetClosing{})
+	}
 	if n, ok := t.(*types.Named); ok && n.Obj().Pkg() != nil {
 		p := n.Obj().Pkg().Path()
 		if p == "sync" || p == "sync/atomic" {
